@@ -169,3 +169,277 @@ def run(rep, tier, sd):
         rep.sample({"repair_history": behs[0]})
     finally:
         shutil.rmtree(root.parent, ignore_errors=True)
+
+
+# --------------------------------------------------------------------------------------------------------------
+# Crash-consistency of the repair: XpmDeprecatedSteps.tla
+# --------------------------------------------------------------------------------------------------------------
+CRASH_SETUP = r'''
+import json, sys, logging, warnings
+warnings.filterwarnings("ignore"); logging.disable(logging.CRITICAL)
+from pathlib import Path
+from experimaestro import experiment, RunMode
+from xvschema.dep import OldT, OldC, NewT, NewC
+root = Path(sys.argv[1]); cases = json.load(open(sys.argv[2])); p1 = json.load(open(sys.argv[3]))
+for i, (case, jobs) in enumerate(zip(cases, p1)):
+    wd = root / f"w{i}"
+    with experiment(wd, "dep2", run_mode=RunMode.DRY_RUN, port=-1) as xp:
+        for j in jobs:
+            t = NewT(n=int(j), c=NewC(v=int(j)))
+            t.submit()
+            jobs[j]["new"] = str(t.__xpm__.job.path.relative_to(wd))
+    for j, k in case["link"].items():
+        new, old = wd / jobs[j]["new"], wd / jobs[j]["old"]
+        new.parent.mkdir(parents=True, exist_ok=True)
+        (wd / ("orig_params_" + j)).write_text((old / "params.json").read_text())
+        if k == "ok":
+            new.symlink_to(old)
+        elif k == "dangling":
+            new.symlink_to(wd / "jobs" / "nowhere" / j)
+print("P1" + json.dumps(p1))
+'''
+
+CRASH_RUN = r'''
+import json, sys, os, logging, warnings
+warnings.filterwarnings("ignore"); logging.disable(logging.CRITICAL)
+from pathlib import Path
+import experimaestro.tools.jobs as tj
+from xvschema.dep import OldT, OldC, NewT, NewC
+wd = Path(sys.argv[1]); fix = sys.argv[2] == "1"; cleanup = sys.argv[3] == "1"; mode = sys.argv[4]; k = int(sys.argv[5])
+count = 0
+if mode == "kill":
+    FN = tj.__file__
+    def tracer(frame, event, arg):
+        global count
+        if frame.f_code.co_filename != FN:
+            return None
+        if event == "line":
+            count += 1
+            if count == k:
+                os._exit(77)     # the repair process disappears before this statement
+        return tracer
+    sys.settrace(tracer)
+elif mode == "enospc":
+    # the k-th json.dump of the repair fails after half of the text (disk full)
+    import json as _json, types
+    def dump(obj, fp, **kw):
+        global count
+        count += 1
+        text = _json.dumps(obj, **kw)
+        if count == k:
+            fp.write(text[: len(text) // 2]); fp.flush()
+            raise OSError(28, "No space left on device")
+        fp.write(text)
+    shim = types.ModuleType("json"); shim.__dict__.update(_json.__dict__); shim.dump = dump
+    tj.json = shim
+try:
+    tj.fix_deprecated(wd, fix, cleanup)
+    res = "end"
+except OSError as e:
+    res = "oserror" if e.errno == 28 else "exc:" + repr(e)[:200]
+except Exception as e:
+    res = "exc:" + repr(e)[:200]
+sys.settrace(None)
+print("RES" + json.dumps({"res": res, "count": count}))
+'''
+
+CRASH_OBSERVE = r'''
+import json, sys, os, logging, warnings
+warnings.filterwarnings("ignore"); logging.disable(logging.CRITICAL)
+from pathlib import Path
+from experimaestro import experiment, RunMode
+from experimaestro.tools.jobs import fix_deprecated
+from xvschema.dep import OldT, OldC, NewT, NewC
+root = Path(sys.argv[1]); cases = json.load(open(sys.argv[2])); p1 = json.load(open(sys.argv[3]))
+out = []
+for i, (case, jobs) in enumerate(zip(cases, p1)):
+    wd = root / f"w{i}"
+    def observe():
+        st = {}
+        for j in jobs:
+            new, old = wd / jobs[j]["new"], wd / jobs[j]["old"]
+            loc = "new" if (new.is_dir() and not new.is_symlink()) else ("old" if (old.is_dir() and not old.is_symlink()) else "lost")
+            link = "none" if not new.is_symlink() else ("ok" if new.exists() and new.resolve() == old.resolve() else "dangling")
+            d = new if loc == "new" else old
+            try:
+                text = (d / "params.json").read_text()
+                if text == (wd / ("orig_params_" + j)).read_text():
+                    params = "old"
+                else:
+                    json.loads(text)["objects"]
+                    params = "new"
+            except Exception as e:
+                params = "torn"
+            st[j] = {"loc": loc, "link": link, "params": params, "tmp": any(x.with_name("params.json.tmp").exists() for x in (new / "params.json", old / "params.json")),
+                     "data": sorted({p.read_text() for p in (new / "data.txt", old / "data.txt") if p.exists()})}
+        return st
+    r = {"after_fault": observe()}
+    try:
+        fix_deprecated(wd, True, case["cleanup2"])
+        r["err"] = None
+    except Exception as e:
+        r["err"] = repr(e)[:300]
+    r["after_repair"] = observe()
+    found = {}
+    try:
+        with experiment(wd, "dep3", run_mode=RunMode.DRY_RUN, port=-1) as xp:
+            for j in jobs:
+                t = NewT(n=int(j), c=NewC(v=int(j)))
+                t.submit()
+                found[j] = t.__xpm__.job.donepath.is_file()
+    except Exception as e:
+        r["err"] = r["err"] or ("resubmission: " + repr(e)[:300])
+    r["found"] = found
+    out.append(r)
+print("P2" + json.dumps(out))
+'''
+
+
+def crash_cases(tier, sd, counts):
+    """(initial links, fix, cleanup, fault mode, k, cleanup of the recovery repair)"""
+    links = [{"1": a, "2": b} for a in ("none", "ok", "dangling") for b in ("none", "ok", "dangling")]
+    cases = []
+    if tier == "quick":
+        plan = [(links[0], True, True, 1), (links[5], True, True, 3), (links[2], True, False, 3), (links[4], False, True, 5)]
+    else:
+        plan = [(lk, f, c, 1) for lk in links for (f, c) in ((True, True), (True, False), (False, True))]
+    for lk, f, c, step in plan:
+        n = counts[(f, c)] + 2
+        for k in range(1 + sd % step, n + 1, step):
+            cases.append({"link": lk, "fix": f, "cleanup": c, "mode": "kill", "k": k, "cleanup2": (k + sd) % 2 == 0})
+        if f and c:
+            for k in (1, 2):
+                cases.append({"link": lk, "fix": f, "cleanup": c, "mode": "enospc", "k": k, "cleanup2": k == 1})
+    return cases
+
+
+def _py(prog, args, env, timeout=900):
+    return subprocess.run(["/venv/bin/python", "-W", "ignore", "-c", prog] + [str(a) for a in args], env=env, capture_output=True, text=True, timeout=timeout)
+
+
+def run_crash(rep, tier, sd, only=None):
+    from concurrent.futures import ThreadPoolExecutor
+
+    mc = tlc.tlc("XpmDeprecatedSteps.tla", "MC_DeprecatedSteps.cfg", timeout=900)
+    rep.add_tlc("MC_DeprecatedSteps", mc, "2 jobs, any sequence of repairs, a crash between any two file-system operations")
+    if mc.violation:
+        rep.violation(f"C20/model/{mc.violation[1]}", f"TLC: {mc.violation}", {"tlc_tail": mc.out[-2000:]})
+    elif mc.error:
+        rep.machinery_failure("TLC failed on MC_DeprecatedSteps: " + str(mc.error))
+    root = Path(tempfile.mkdtemp(prefix="xvdepc-", dir=str(tlc.workdir("depc"))))
+    env1 = dict(os.environ, PYTHONPATH=REPO_SRC + ":/verif")
+    env1.pop("XV_DEPRECATE", None)
+    env2 = dict(env1, XV_DEPRECATE="1")
+
+    def generate(sub, cases):
+        d = root / sub
+        d.mkdir()
+        cf = d / "cases.json"
+        cf.write_text(json.dumps(cases))
+        behs = [[{"loc": {j: "old" for j in c["link"]}}] for c in cases]
+        bf = d / "behs.json"
+        bf.write_text(json.dumps(behs))
+        p = _py(PHASE1, [d, bf], env1)
+        line = next((x for x in p.stdout.splitlines() if x.startswith("P1")), None)
+        if line is None:
+            raise RuntimeError("generation failed: " + p.stderr[-400:])
+        pf = d / "p1.json"
+        pf.write_text(line[2:])
+        q = _py(CRASH_SETUP, [d, cf, pf], env2)
+        line = next((x for x in q.stdout.splitlines() if x.startswith("P1")), None)
+        if line is None:
+            raise RuntimeError("set-up failed: " + q.stderr[-400:])
+        pf.write_text(line[2:])
+        return d, cf, pf
+
+    def fault(d, i, c):
+        q = _py(CRASH_RUN, [d / f"w{i}", int(c["fix"]), int(c["cleanup"]), c["mode"], c["k"]], env2, timeout=300)
+        line = next((x for x in q.stdout.splitlines() if x.startswith("RES")), None)
+        if q.returncode == 77:
+            return {"res": "crashed"}
+        if line is None:
+            return {"res": "machinery:" + q.stderr[-300:]}
+        return json.loads(line[3:])
+
+    try:
+        # calibration: number of statements of a complete repair
+        cal = [{"link": {"1": "none", "2": "dangling"}, "fix": f, "cleanup": c, "mode": "kill", "k": 10**9, "cleanup2": False}
+               for (f, c) in ((True, True), (True, False), (False, True))]
+        d, cf, pf = generate("cal", cal)
+        counts = {}
+        for i, c in enumerate(cal):
+            r = fault(d, i, c)
+            if r.get("res") != "end":
+                rep.machinery_failure("calibration of the repair failed: " + str(r)[:300])
+                return
+            counts[(c["fix"], c["cleanup"])] = r["count"]
+        rep.cov["repair_statements"] = {f"fix={f} cleanup={c}": n for (f, c), n in counts.items()}
+        cases = only or crash_cases(tier, sd, counts)
+        d, cf, pf = generate("run", cases)
+        with ThreadPoolExecutor(max_workers=16) as ex:
+            results = list(ex.map(lambda ic: fault(d, ic[0], ic[1]), enumerate(cases)))
+        q = _py(CRASH_OBSERVE, [d, cf, pf], env2, timeout=1800)
+        line = next((x for x in q.stdout.splitlines() if x.startswith("P2")), None)
+        if line is None:
+            rep.machinery_failure("observation after the faults failed: " + q.stderr[-400:])
+            return
+        obs = json.loads(line[2:])
+        strip = lambda st: {j: {k: v for k, v in x.items() if k != "data"} for j, x in st.items()}
+        traces, idx = [], []
+        for i, (c, r, o) in enumerate(zip(cases, results, obs)):
+            rep.cov["evaluations"] += 1
+            payload = {"case": c, "fault_result": r, "observed": o}
+            what = f"{c['mode']} fault k={c['k']} in a repair fix={c['fix']} cleanup={c['cleanup']} from links {c['link']}"
+            if r["res"].startswith("machinery"):
+                rep.machinery_failure(r["res"])
+                continue
+            if r["res"].startswith("exc:"):
+                rep.violation("C20/repair/exception", f"{what}: fix_deprecated raised {r['res'][4:]}", payload)
+                continue
+            bad = False
+            for phase in ("after_fault", "after_repair"):
+                for j, st in o[phase].items():
+                    if st["loc"] == "lost" or not st["data"]:
+                        rep.violation("C20/crash/data-deleted", f"{what}: the data of job {j} is gone {phase}", payload)
+                        bad = True
+                    elif st["params"] == "torn":
+                        rep.violation("C20/crash/torn-params", f"{what}: params.json of job {j} is unreadable {phase.replace('_', ' the ')}", payload)
+                        bad = True
+            if o["err"]:
+                rep.violation("C20/crash/recovery-raises", f"{what}: the next repair fails: {o['err']}", payload)
+                bad = True
+            if bad:
+                continue
+            for j, f in o["found"].items():
+                if not f and j != "1":       # job 1: known finding (deprecated task class), reported by the replay half
+                    rep.violation("C20/crash/resubmit-misses-result", f"{what}: after the recovery repair a resubmission does not find the result of job {j}", payload)
+            ev = [{"e": "init", "link": c["link"]}, {"e": "begin", "fix": c["fix"], "cleanup": c["cleanup"]},
+                  {"e": "end" if r["res"] == "end" else "crashed", "st": strip(o["after_fault"])},
+                  {"e": "begin", "fix": True, "cleanup": c["cleanup2"]}, {"e": "end", "st": strip(o["after_repair"])}]
+            traces.append({"ev": ev})
+            idx.append((i, what, payload))
+        verdicts, stats = tlc.validate_batch("XpmDeprecatedSteps_Trace.tla", "XpmDeprecatedSteps_Trace.cfg", traces, shard=80, deque=True)
+        for e in stats["errors"][:2]:
+            rep.machinery_failure("TLC failed on a repair history batch: " + e[-500:])
+        rep.cov["states"] += stats["distinct"]
+        rep.cov["transitions"] += stats["generated"]
+        rep.cov["tlc_runs"].append({"config": "XpmDeprecatedSteps_Trace (batches)", "distinct": stats["distinct"], "generated": stats["generated"], "wall_s": round(stats["wall"], 1)})
+        states = set()
+        for (i, what, payload), t, v in zip(idx, traces, verdicts):
+            if v["accepted"] and not v["inv"]:
+                rep.cov["traces_validated_against_impl"] += 1
+                states.add(json.dumps(t["ev"][2]["st"], sort_keys=True))
+            else:
+                r = v["reached"] or 0
+                nxt = t["ev"][r] if r < len(t["ev"]) else None
+                rep.violation(f"C20/crash/history/{nxt and nxt['e']}/{json.dumps(nxt and nxt.get('st'), sort_keys=True)}",
+                              f"{what}: no behaviour of XpmDeprecatedSteps explains the tree observed at event {r + 1}: {nxt} {v['inv']}", payload)
+        rep.cov["fix_deprecated_crash"] = {"faults": len(cases), "distinct_trees_after_fault": len(states),
+                                          "killed": sum(r["res"] == "crashed" for r in results), "write_errors": sum(r["res"] == "oserror" for r in results)}
+        rep.cov["distinct_nontrivial"] += len(states)
+        if traces:
+            rep.sample({"interrupted_repair_history": traces[len(traces) // 2]})
+    except RuntimeError as e:
+        rep.machinery_failure("crash engine: " + str(e))
+    finally:
+        shutil.rmtree(root.parent, ignore_errors=True)
